@@ -306,7 +306,7 @@ def floor_pow2_cases(tier):
     roundPowerOfTwo the nearer of that and its double"""
     cs = []
     bt, it_ = G.scalar('bool'), G.scalar('int')
-    for w in ((8, 32) if tier == 'quick' else (8, 16, 32, 64)):
+    for w in (8, 16, 32, 64):
         for sgn in (0, 1):
             T = INTS[w][sgn]
             ty = G.scalar(T)
@@ -359,6 +359,20 @@ def floor_pow2_cases(tier):
                             return False
                     if fn_ != 'roundPowerOfTwo':
                         ok = is_prev(other)
+                        if not ok:
+                            # an established difference: the derived term evaluated at x = 2^j + 1 (not a power of two; the power of two below is 2^j)
+                            from laneflow import ceval as CE
+                            signed_ = INTS[w][1] == name.split('<')[1].rstrip('>')
+                            for j_ in range(1, w - (2 if signed_ else 1)):
+                                xv = (1 << j_) + 1
+                                try:
+                                    got = CE.evaluate(t, {x: xv})
+                                except CE.NoValue:
+                                    continue
+                                if got != (1 << j_):
+                                    res.append(R.ob(name + '.below', 'pow2', R.REFUTED, '%s(%#x) = %#x, the power of two below is %#x (result term: %s)' % (fn_, xv, got, 1 << j_, tm.show(other, 4)),
+                                                    where=R.where_of(ctx.fn(k), t), kernel=k.source()))
+                                    return res
                         res.append(R.ob(name + '.below', 'pow2', R.PROVED if ok else R.UNDECIDED, 'otherwise 1 << findMSB(x) (the findMSB term of the same tree)' if ok else 'otherwise %s; expected 1 << findMSB(x) = %s' % (tm.show(other, 4), tm.show(prevs[0], 4)), kernel=k.source()))
                         return res
                     ok = False
